@@ -238,6 +238,15 @@ func runC02(c *fw.Ctx) int {
 			decOnRef(c, k, tag, v, ref, c.Rng.Bool())
 		}
 	}
+	// packed lists whose payload crosses 16384 bytes (three-byte length prefix)
+	for _, k := range pk {
+		bigPackedLists(k, c.Rng, func(v wval) {
+			tag := interestingTags[c.Rng.Intn(len(interestingTags))]
+			ref := encVsRef(c, k, tag, v)
+			decOnRef(c, k, tag, v, ref, c.Rng.Bool())
+		})
+	}
+	c.FlushModel()
 	for i := 0; i < n; i++ {
 		k := all[c.Rng.Intn(len(all))]
 		tag, v := genTag(c.Rng), k.gen(c.Rng)
